@@ -3,7 +3,9 @@ package sim
 import (
 	"bytes"
 	"fmt"
+	bridgetypes "github.com/tellor-io/layer/x/bridge/types"
 	"sort"
+	"strings"
 	"time"
 
 	abci "github.com/cometbft/cometbft/abci/types"
@@ -234,6 +236,58 @@ func (e *Executor) divergence(h int64, n *Node, res *abci.ResponseFinalizeBlock,
 	return &Violation{Property: "C01", Oracle: "hash-equality", Site: how, Class: "divergence-" + what, Height: h,
 		Msg: fmt.Sprintf("node %d (%s) block %d: %s differs: app %s vs %s, results %s vs %s", n.Idx, how, h, what,
 			short(res.AppHash), short(b.AppHash), short(resultsDigest(res)), short(b.ResultsHash))}
+}
+
+// voteExtStateDiff: two honest nodes executed the same decided block and disagree (the run ends here anyway). Both
+// commit, and what the pre-block step wrote from the block's injected vote-extension data is compared: C17 requires it
+// to be exactly the accepted data of that block, hence identical on every node.
+func (e *Executor) voteExtStateDiff(h int64, ref, n *Node) []*Violation {
+	if _, err := ref.App.Commit(); err != nil {
+		return nil
+	}
+	if _, err := n.App.Commit(); err != nil {
+		return nil
+	}
+	dump := func(x *Node) map[string]string {
+		out := map[string]string{}
+		v := e.C.ViewOf(x)
+		bk := x.App.BridgeKeeper
+		_ = bk.OperatorToEVMAddressMap.Walk(v.ctx, nil, func(k string, a bridgetypes.EVMAddress) (bool, error) {
+			out["evm|"+k] = fmt.Sprintf("%x", a.EVMAddress)
+			return false, nil
+		})
+		_ = bk.BridgeValsetSignaturesMap.Walk(v.ctx, nil, func(k uint64, sg bridgetypes.BridgeValsetSignatures) (bool, error) {
+			out[fmt.Sprintf("valset-signatures|%d", k)] = fmt.Sprintf("%x", sg.Signatures)
+			return false, nil
+		})
+		_ = bk.SnapshotToAttestationsMap.Walk(v.ctx, nil, func(k []byte, a bridgetypes.OracleAttestations) (bool, error) {
+			out[fmt.Sprintf("attestations|%x", k)] = fmt.Sprintf("%x", a.Attestations)
+			return false, nil
+		})
+		return out
+	}
+	a, b := dump(ref), dump(n)
+	var keys []string
+	for k := range a {
+		keys = append(keys, k)
+	}
+	for k := range b {
+		if _, ok := a[k]; !ok {
+			keys = append(keys, k)
+		}
+	}
+	sort.Strings(keys)
+	for _, k := range keys {
+		if a[k] != b[k] {
+			what := k
+			if i := strings.IndexByte(k, '|'); i > 0 {
+				what = k[:i]
+			}
+			return []*Violation{{Property: "C17", Oracle: "state", Site: "PreBlocker", Class: "nodes-wrote-different-vote-extension-data:" + what, Height: h,
+				Msg: fmt.Sprintf("block %d: node %d and node %d executed the same decided block but the pre-block step left different %s (%s): what is written must be exactly the block's accepted data", h, ref.Idx, n.Idx, what, truncate(k, 60))}}
+		}
+	}
+	return nil
 }
 
 func (e *Executor) crashAt(p *HeightPlan, pt CrashPoint) {
@@ -480,6 +534,9 @@ func (e *Executor) Step(p *HeightPlan) error {
 			firstRes = res
 		} else if !bytes.Equal(res.AppHash, blk.AppHash) || !bytes.Equal(resultsDigest(res), blk.ResultsHash) {
 			e.report(e.divergence(h, n, res, "live"))
+			if len(executed) > 0 {
+				e.report(e.voteExtStateDiff(h, executed[0], n)...)
+			}
 			return nil
 		}
 		executed = append(executed, n)
